@@ -82,6 +82,14 @@ class RecordingTransport(suds.transport.Transport):
         self.opened = []
         self.reply = reply
 
+    def __deepcopy__(self, memo=None):
+        # like HttpTransport.__deepcopy__: a fresh transport with the same option values
+        from suds.properties import Unskin
+        clone = self.__class__(reply=self.reply)
+        clone.sent = self.sent          # keep recording in one place
+        Unskin(clone.options).update(Unskin(self.options))
+        return clone
+
     def open(self, request):
         self.opened.append(request.url)
         raise suds.transport.TransportError("no such document: %s" % request.url, 404)
